@@ -20,7 +20,7 @@ use tokio_util::codec::{Decoder as _, Encoder as _};
 use tracing::{error, trace};
 
 use super::{
-    codec::Codec,
+    codec::{Codec, RequestContext},
     decoder::MAX_BUFFER_SIZE,
     payload::{Payload, PayloadSender, PayloadStatus},
     timer::TimerState,
@@ -171,6 +171,8 @@ pin_project! {
         // true when current request uses chunked transfer encoding (drainable when payload is dropped)
         payload_drainable: bool,
         messages: VecDeque<DispatcherMessage>,
+        // encoding context of the request whose response has not been encoded yet
+        request_ctx: Option<RequestContext>,
 
         head_timer: TimerState,
         ka_timer: TimerState,
@@ -186,7 +188,7 @@ pin_project! {
 }
 
 enum DispatcherMessage {
-    Item(Request),
+    Item(Request, RequestContext),
     Upgrade(Request),
     Error(Response<()>),
 }
@@ -286,6 +288,7 @@ where
                     payload: None,
                     payload_drainable: false,
                     messages: VecDeque::new(),
+                    request_ctx: None,
 
                     head_timer: TimerState::new(config.client_request_deadline().is_some()),
                     ka_timer: TimerState::new(config.keep_alive().enabled()),
@@ -443,6 +446,11 @@ where
 
         let size = body.size();
 
+        // encode with the context of the request being answered, not of the last one decoded
+        if let Some(ctx) = this.request_ctx.take() {
+            this.codec.set_request_context(ctx);
+        }
+
         this.codec
             .encode(Message::Item((res, size)), this.write_buf)
             .map_err(|err| {
@@ -583,7 +591,9 @@ where
                 // no future is in InnerDispatcher state; pop next message
                 StateProj::None => match this.messages.pop_front() {
                     // handle request message
-                    Some(DispatcherMessage::Item(req)) => {
+                    Some(DispatcherMessage::Item(req, ctx)) => {
+                        *this.request_ctx = Some(ctx);
+
                         // Handle `EXPECT: 100-Continue` header
                         if req.head().expect() {
                             // set InnerDispatcher state and continue loop to poll it
@@ -934,12 +944,15 @@ where
                                 }
                             }
 
+                            let ctx = this.codec.request_context();
+
                             // handle request early when no future in InnerDispatcher state.
                             if this.state.is_none() {
+                                *this.request_ctx = Some(ctx);
                                 self.as_mut().handle_request(req, cx)?;
                                 this = self.as_mut().project();
                             } else {
-                                this.messages.push_back(DispatcherMessage::Item(req));
+                                this.messages.push_back(DispatcherMessage::Item(req, ctx));
                             }
                         }
 
